@@ -9,6 +9,7 @@ import (
 
 	"github.com/mmcloughlin/geohash"
 	"github.com/tidwall/tile38/verif/harness/ev"
+	"github.com/tidwall/tile38/verif/harness/t38"
 )
 
 // poleProbe is the deterministic reproduction of findingPole: 70 points up the
@@ -128,6 +129,69 @@ func TestC13_KnownProbes(t *testing.T) {
 			}
 		}
 	}
+	// nearby-antipodal-nan and polar-circle-nan-rect: small histories through the ordinary oracle
+	others := []string{"m 10 10", "n -10 -10", "o 0 100", "p -41 -15", "q 41.2 164.7"}
+	mk := func(first step, qs ...query) history {
+		h := history{Pool: "probe"}
+		h.Steps = append(h.Steps, first)
+		for _, o := range others {
+			f := strings.Fields(o)
+			h.Steps = append(h.Steps, stepT{Op: "set", ID: f[0], Obj: &objSpec{[]string{"POINT", f[1], f[2]}}})
+		}
+		for i := range qs {
+			h.Steps = append(h.Steps, stepT{Op: "query", Q: &qs[i]})
+		}
+		return h
+	}
+	small := []struct {
+		finding string
+		what    string
+		h       history
+	}{
+		{findingAntipodalNaN, "an object at the exact antipode of the query point (41.214,164.753 vs -41.214,-15.247: the haversine sum rounds above 1) gets DISTANCE NaN and is ranked / kept inside a radius as if it were near: ",
+			mk(stepT{Op: "set", ID: "anti", Obj: &objSpec{[]string{"POINT", "41.214", "164.753"}}},
+				query{Lat: "-41.214", Lon: "-15.247", K: 100}, query{Lat: "-41.214", Lon: "-15.247", K: 2}, query{Lat: "-41.214", Lon: "-15.247", K: 100, Radius: "4900000"})},
+		{findingPolarNaN, "a stored circle whose disc touches a pole (centre [10,1.5], r 9840751 m: NaN vertices) gets DISTANCE NaN instead of 0 from a point inside its box: ",
+			mk(stepT{Op: "set", ID: "circ", Obj: &objSpec{[]string{"OBJECT", `{"type":"Feature","geometry":{"type":"Point","coordinates":[10,1.5]},"properties":{"type":"Circle","radius":9840751,"radius_units":"m"}}`}}},
+				query{Lat: "0", Lon: "0", K: 100}, query{Lat: "0", Lon: "0", K: 100, Radius: "1000"})},
+	}
+	for _, sp := range small {
+		var rep []string
+		var first *history
+		for _, level := range []string{"collection", "server"} {
+			c.Case()
+			h := sp.h
+			h.Level = level
+			if level == "collection" {
+				// no radius in-package
+				var st []stepT
+				for _, x := range h.Steps {
+					if x.Op != "query" || x.Q.Radius == "" {
+						st = append(st, x)
+					}
+				}
+				h.Steps = st
+			}
+			if msg := historyFails(h, conn); msg != "" {
+				rep = append(rep, level+": "+msg)
+				c.Label("reproduced:" + sp.finding)
+				if first == nil {
+					hh := h
+					first = &hh
+				}
+			}
+		}
+		if len(rep) == 0 {
+			continue
+		}
+		what := sp.what + strings.Join(rep, " | ")
+		if ev.KnownActive(sp.finding) {
+			c.Known(sp.finding, what)
+		} else {
+			c.Violation(sp.finding, what, first)
+			t.Errorf("VIOLATION-CANDIDATE key=%s: %s", sp.finding, what)
+		}
+	}
 	if len(reproduced) == 0 {
 		return
 	}
@@ -138,4 +202,35 @@ func TestC13_KnownProbes(t *testing.T) {
 		c.Violation(findingPole, what, replay)
 		t.Errorf("VIOLATION-CANDIDATE key=%s: %s", findingPole, what)
 	}
+}
+
+type stopFailer struct{ msg string }
+
+func (f *stopFailer) Fatalf(format string, args ...any) {
+	f.msg = fmt.Sprintf(format, args...)
+	panic(f)
+}
+func (f *stopFailer) Helper() {}
+
+// historyFails replays h on a scratch collector and returns the violation message, if any.
+func historyFails(h history, conn *t38.Conn) (msg string) {
+	f := &stopFailer{}
+	defer func() {
+		if r := recover(); r != nil {
+			if r != any(f) {
+				panic(r)
+			}
+			msg = f.msg
+		}
+	}()
+	var be backend = &colBackend{}
+	if h.Level == "server" {
+		be = &srvBackend{c: conn}
+	}
+	m := newMachine(f, ev.New("C13", "probe-scratch", "exploration"), be, h.Level)
+	m.hist.Pool = h.Pool
+	for _, st := range h.Steps {
+		m.apply(st)
+	}
+	return ""
 }
